@@ -7,6 +7,7 @@ from .. import sym as S
 from ..cfg import CFG
 from ..dt import DT
 from ..eff import Effects
+from ..report import MISSING
 from ..model import AnalysisError
 from ..symeval import SymEval
 from . import cli_common as cc
@@ -127,8 +128,8 @@ def slots(ctx, R="R-C16-slots"):
                     ctx.check(ok, R, f, n, "the tensor is reduced over all axes but the coefficient axis", "%s increment is not reduced over other_axes" % reg)
     f = prog.own_method(c, "_accumulate_tensor")
     oa = [n for n in f.body_nodes() if isinstance(n, ast.Assign) and astq.is_name(n.targets[0], "other_axes")]
-    ok = len(oa) == 1 and astq.text(oa[0].value).replace(" ", "") == "tuple((idxforidxinrange(len(tensor.shape))ifidx!=axis%len(tensor.shape)))"
-    ctx.check(ok, R, f, oa[0] if oa else f.node, "other_axes are all axes but the (normalised) coefficient axis")
+    ok = len(oa) == 1 and astq.eq_text(oa[0].value, "tuple((idxforidxinrange(len(tensor.shape))ifidx!=axis%len(tensor.shape)))")
+    ctx.check(ok, R, f, oa[0] if oa else MISSING(f.node), "other_axes are all axes but the (normalised) coefficient axis")
 
 
 def appliers(ctx, R="R-C16-apply"):
@@ -170,7 +171,7 @@ def appliers(ctx, R="R-C16-apply"):
             ok = ops == [("Mult", "scales"), ("Sub", "means*scales")]
         else:
             ok = ops == [("Mult", "scales[tensor_slice]"), ("Sub", "(means*scales)[tensor_slice]")]
-        ctx.check(ok, R, f, augs[0] if augs else f.node, "%s applies x * scale - mean * scale" % name, "%s applies %s" % (name, ops))
+        ctx.check(ok, R, f, augs[0] if augs else MISSING(f.node), "%s applies x * scale - mean * scale" % name, "%s applies %s" % (name, ops))
         sc = [n for n in f.body_nodes() if isinstance(n, ast.Assign) and astq.is_name(n.targets[0], "scales")]
         pm = astq.parents(f)
         by = {}
@@ -179,25 +180,25 @@ def appliers(ctx, R="R-C16-apply"):
             if gds:
                 by["T" if any(x is n for s_ in gds[0].body for x in ast.walk(s_)) else "F"] = astq.text(n.value).replace(" ", "")
         ok = by.get("T") == "1/varss**0.5" and by.get("F") in ("1", "np.ones(1)")
-        ctx.check(ok, R, f, sc[0] if sc else f.node, "%s divides by the standard deviation iff norm_var" % name, "scales are %s" % by)
-        rep = [n for n in f.body_nodes() if isinstance(n, ast.Assign) and astq.text(n.targets[0]).replace(" ", "") == "varss[close_zero]"]
+        ctx.check(ok, R, f, sc[0] if sc else MISSING(f.node), "%s divides by the standard deviation iff norm_var" % name, "scales are %s" % by)
+        rep = [n for n in f.body_nodes() if isinstance(n, ast.Assign) and astq.eq_text(n.targets[0], "varss[close_zero]")]
         div = [n for n in sc if "varss" in astq.text(n.value)]
         ok = len(rep) == 1 and astq.text(rep[0].value) == "1" and div and rep[0].lineno < div[0].lineno
-        ctx.check(ok, R, f, rep[0] if rep else f.node, "%s replaces (near-)zero variances by 1 before dividing" % name)
+        ctx.check(ok, R, f, rep[0] if rep else MISSING(f.node), "%s replaces (near-)zero variances by 1 before dividing" % name)
         # float64 result: conversion guard and returns
         conv = [n for n in f.body_nodes() if isinstance(n, ast.Assign) and astq.is_name(n.targets[0], arr) and astq.text(n.value).replace(" ", "") == "%s.astype(np.float64)" % arr]
         ok = len(conv) == 1
         if ok:
             gds = [astq.text(a.test).replace(" ", "") for a in astq.ancestors(pm, conv[0]) if isinstance(a, ast.If)]
             ok = gds == ["notin_placeor%s.dtype!=np.float64" % arr]
-        ctx.check(ok, "R-C16-float64", f, conv[0] if conv else f.node, "%s works on a float64 copy unless in_place on a float64 array" % name,
+        ctx.check(ok, "R-C16-float64", f, conv[0] if conv else MISSING(f.node), "%s works on a float64 copy unless in_place on a float64 array" % name,
                   "%s does not convert under `not in_place or dtype != float64`" % name)
         for r in astq.returns_of(f):
             ctx.check(astq.is_name(r.value, arr), "R-C16-float64", f, r, "%s returns the float64 array it worked on" % name, "%s returns %s" % (name, astq.text(r.value)))
     hs = prog.own_method(c, "have_stats")
     r = astq.returns_of(hs)
-    ok = len(r) == 1 and astq.text(r[0].value).replace(" ", "") == "self._statsisnotNoneandself._stats[0,-1]"
-    ctx.check(ok, R, hs, r[0] if r else hs.node, "have_stats is true iff at least one vector was accumulated (count > 0)")
+    ok = len(r) == 1 and astq.eq_text(r[0].value, "self._statsisnotNoneandself._stats[0,-1]")
+    ctx.check(ok, R, hs, r[0] if r else MISSING(hs.node), "have_stats is true iff at least one vector was accumulated (count > 0)")
     ap = prog.own_method(c, "apply")
     rs = astq.returns_of(ap)
     txt = sorted(astq.text(x.value).replace(" ", "") for x in rs)
@@ -259,7 +260,7 @@ def dimcheck(ctx, R="R-C16-dimcheck"):
                 ctx.check(ok, R, f, n, "the dimension check precedes this update", "an update can run before the dimension check")
         nm = [n for n in f.body_nodes() if isinstance(n, ast.Assign) and astq.is_name(n.targets[0], "num_coeffs")]
         want = "len(%s)" % f.params[1] if name.endswith("vector") else "%s.shape[axis]" % f.params[1]
-        ctx.check(len(nm) == 1 and astq.text(nm[0].value) == want, R, f, nm[0] if nm else f.node, "num_coeffs is the length of the coefficient axis")
+        ctx.check(len(nm) == 1 and astq.text(nm[0].value) == want, R, f, nm[0] if nm else MISSING(f.node), "num_coeffs is the length of the coefficient axis")
 
 
 def readonly(ctx, R="R-C16-readonly"):
